@@ -9,10 +9,14 @@ import Cellml.C09.Model
     * `Adv`: for each place where cellmlmanip walks through a Python `set` (harness/setscan.py lists them from the
       source text) a function that re-orders the elements before the loop sees them. `Adv.Fair`: it only re-orders.
         - `consts`: `for var in set(self.model.variables())` in `Parser.transform_constants` — the code BEFORE the fix;
-        - `refs`  : `for rhs in self.find_variables_and_derivatives([equation.rhs])` in `Model.graph`;
+        - `refs`  : the set `self.find_variables_and_derivatives([equation.rhs])` in `Model.graph` — BEFORE the fix
+          "graph nodes in a reproducible order" the loop `for rhs in …` walked it as it came (`graphSet`); since the fix
+          it is `sorted(…, key=str)` first (`graph`, C09's `buildGraph`), the adversary only chooses the INPUT of the
+          sort;
         - `anc`   : `required_variables.update(nx.ancestors(graph, output))` in `Model.get_equations_for`.
     * `transformConstantsSet` / `loadSet`: `transform_constants` and `parse` as they were (set iteration);
       `load`: as they are after the fix — the variable table is walked in insertion order, no set is iterated.
+    * `graphSet` / `graphNodesSet`: `Model.graph` as it was (references walked in set order); `graph`: as it is.
     * the ordered queries of `Model`: `variables()`, `equations`, `get_state_variables`, `get_derivatives`,
       `get_derived_quantities` (`list.sort(key=order_added)` = `sortBy`, a stable insertion sort), `graph.nodes`,
       `get_equations_for`.
@@ -101,7 +105,7 @@ def sortBy {α : Type} (k : α → Nat) : List α → List α
   | [] => []
   | x :: xs => insertBy k x (sortBy k xs)
 
-/-- the equation as `Model.graph` sees it: left-hand side, references in the order the set iteration gives them
+/-- the equation as `Model.graph` receives it: left-hand side, references in the order the set iteration gives them
     (before / after number substitution — `obs e` is what SymPy leaves after substitution, observed not modelled) -/
 def toEqn (cx : Ctx) (π : Adv) (obs : FlatEq → List (Lhs VRef)) (e : FlatEq) : C09.Eqn :=
   { lhs := cx.num e.lhs
@@ -117,9 +121,33 @@ def system (cx : Ctx) (π : Adv) (obs : FlatEq → List (Lhs VRef)) (F : Flat) :
 /-- no simplification: the references after substitution are the references -/
 def obsAll (e : FlatEq) : List (Lhs VRef) := e.rhs.leaves
 
-/-- `Model.graph` -/
+/-- `Model.graph` (after the fix: C09's builder sorts the references of every equation by `str`) -/
 def graph (cx : Ctx) (π : Adv) (obs : FlatEq → List (Lhs VRef)) (F : Flat) : Except C09.Err C09.Graph :=
   C09.buildGraph cx.key (system cx π obs F)
+
+/-! ### `Model.graph` BEFORE the fix: `for rhs in self.find_variables_and_derivatives([equation.rhs])` -/
+
+/-- second loop of `Model.graph` as it was: the references are walked in the order the set hands them out -/
+def addEqsSet (sf : Node → Bool) : List C09.Eqn → C09.Graph → Except C09.Err C09.Graph
+  | [], g => .ok g
+  | e :: es, g =>
+      match C09.addRefs sf e.lhs e.refs g with
+      | .error x => .error x
+      | .ok g1 => addEqsSet sf es (C09.addOde e.ode g1)
+
+/-- `Model.graph` before the fix -/
+def graphSet (cx : Ctx) (π : Adv) (obs : FlatEq → List (Lhs VRef)) (F : Flat) : Except C09.Err C09.Graph :=
+  let eqs := system cx π obs F
+  let lhss := eqs.map (·.lhs)
+  if ¬ lhss.Nodup then .error .assertion
+  else if ¬ (lhss.map cx.key).Nodup then .error .assertion
+  else addEqsSet (C09.isStateOrFree eqs) eqs ⟨lhss, []⟩
+
+/-- `list(Model.graph.nodes)` before the fix -/
+def graphNodesSet (cx : Ctx) (π : Adv) (obs : FlatEq → List (Lhs VRef)) (F : Flat) : Except C09.Err (List Node) :=
+  match graphSet cx π obs F with
+  | .error x => .error x
+  | .ok g => .ok g.nodes
 
 inductive VType where
   | state | free | parameter | computed
